@@ -278,6 +278,7 @@ package aggregate
 
 // ======================================================================== C07 base-2 exponential histograms
 // scaleChange: the number of halvings after which bin and the current window fit into maxSize buckets (or more than 30)
+//@ spec shr64(x int, c int32) int = x >> int(c)
 //@ func (p *expoHistogramDataPoint[N]) scaleChange(bin int32, startBin int32, length int) (r int32)
 //@   prop C07
 //@   instances int64; float64
@@ -285,11 +286,11 @@ package aggregate
 //@   requires p != nil && length >= 0 && length <= 1073741824
 //@   ensures length == 0 ==> r == 0
 //@   ensures r >= 0 && r <= 31
-//@   ensures length != 0 && startBin < bin ==> r > 30 || (int(bin) >> int(r)) - (int(startBin) >> int(r)) < p.maxSize
-//@   ensures length != 0 && startBin >= bin ==> r > 30 || ((int(startBin) + length - 1) >> int(r)) - (int(bin) >> int(r)) < p.maxSize
+//@   ensures length != 0 && startBin < bin ==> r > 30 || shr64(int(bin), r) - shr64(int(startBin), r) < p.maxSize
+//@   ensures length != 0 && startBin >= bin ==> r > 30 || shr64(int(startBin) + length - 1, r) - shr64(int(bin), r) < p.maxSize
 //@   loop#1 invariant count >= 0 && count <= 30
-//@   loop#1 invariant startBin < bin ==> low == (int(startBin) >> int(count)) && high == (int(bin) >> int(count))
-//@   loop#1 invariant startBin >= bin ==> low == (int(bin) >> int(count)) && high == ((int(startBin) + length - 1) >> int(count))
+//@   loop#1 invariant startBin < bin ==> low == shr64(int(startBin), count) && high == shr64(int(bin), count)
+//@   loop#1 invariant startBin >= bin ==> low == shr64(int(bin), count) && high == shr64(int(startBin) + length - 1, count)
 //@   loop#1 decreases 31 - int(count)
 
 // exponential histogram, delta collection: one data point per stream over [start, t]; count, scale, zero count, both bucket
